@@ -601,11 +601,13 @@ class convert_to_dot_bracket:
     ghost = [
         {"when": "before", "at": "return self.fcfs", "label": "fcfs-exit", "do": ["let VIA_FCFS = True"]},
         {"when": "after", "at": "regions = self.__regions", "label": "regions", "do": ["let GS = __regions_GS"]},
+        {"when": "before", "at": "max_order = max(", "label": "level-bound-mark", "do": ["mark LB"]},
         {"when": "after", "at": "max_order = max(", "label": "level-bound",
          "do": ["use degree30_definition(self, regions)",
                 "assert graph_exact(graph, regions)",
                 "forall a | assert implies(a in graph, graph[a] == nbrs(regions, a))",
-                "assert 1 <= max_order and max_order <= 30"]},
+                # only the bound is needed below: the defining facts of max / map / len (lambda terms) are dropped
+                "summarize LB as 1 <= max_order and max_order <= 30 and graph_exact(graph, regions)"]},
         {"when": "after", "at": "problem = pulp.LpProblem(", "label": "problem", "do": ["let P0 = problem"]},
         {"when": "before", "at": "for i in range(len(regions))", "label": "variables",
          "do": ["let A1 = frontier()", "let GI = fill(0, 0)", "let GJ = fill(0, 0)"]},
